@@ -16,7 +16,7 @@ import numpy
 PROPERTY = "C15"
 LEVEL = "exploration"
 NEED_EXT = True
-REQUIRED = ["learner.transparent", "learner.fit", "stacking.hstack", "transfer.output", "transfer.frozen",
+REQUIRED = ["learner.transparent", "learner.fit", "learner.fit_params", "stacking.hstack", "transfer.output", "transfer.frozen",
             "transfer.original_untouched", "transfer.trainable"]
 RULE = ("wrapped models (regressors, binary / multiclass classifiers, transformers, k-means, k-NN, PLS) x methods "
         "(predict, predict_proba, decision_function, transform, callable, default) x batches of 1, 2 and n rows x "
@@ -195,6 +195,40 @@ def run_learner(case, ctx):
                 if exp.shape[1] > 1:
                     ctx.nontriv("learner", cfg, bname)
             ctx.cls("model=" + name)
+        # fit parameters (sample_weight) reach the wrapped model through fit and through fit_transform,
+        # with and without a target
+        if name in ("LinearRegression", "Ridge", "LogisticRegression", "GaussianNB", "DecisionTreeRegressor",
+                    "DecisionTreeClassifier", "KMeans", "StandardScaler"):
+            w = rng.rand(len(X)) * 3 + 0.1
+            meth = methods[0]
+            for path in ("fit", "fit_transform"):
+                cfg = {"model": name, "method": meth, "path": path, "sample_weight": True, "sub": case["sub"]}
+                wr = SkBaseTransformLearner(mk(), meth)
+                direct = mk()
+                try:
+                    numpy.random.seed(5)
+                    if kind == "tr":
+                        direct.fit(X, sample_weight=w)
+                    else:
+                        direct.fit(X, y, sample_weight=w)
+                    numpy.random.seed(5)
+                    if path == "fit":
+                        wr.fit(X, sample_weight=w) if kind == "tr" else wr.fit(X, y, sample_weight=w)
+                        got = wr.transform(X)
+                    else:
+                        got = wr.fit_transform(X, sample_weight=w) if kind == "tr" else \
+                            wr.fit_transform(X, y, sample_weight=w)
+                except Exception as e:
+                    ctx.violation("C15/learner/fit-params-raised/%s" % type(e).__name__, "%s with sample_weight: %s" % (
+                        path, str(e)[:150]), cfg=cfg)
+                    continue
+                ctx.hit("learner.fit_params")
+                exp = as2d(getattr(direct, meth)(X))
+                if got.shape != exp.shape or not numpy.allclose(got, exp, rtol=1e-12, atol=1e-12):
+                    ctx.violation("C15/learner/fit-params-not-forwarded/%s%s" % (path, "/no-target" if kind == "tr"
+                                                                                   else ""),
+                                  "%s(X%s, sample_weight=w) does not train the wrapped %s as a direct fit with the "
+                                  "same weights does" % (path, "" if kind == "tr" else ", y", name), cfg=cfg)
     ctx.sample({"models": list(M), "sub": case["sub"]})
 
 
